@@ -430,8 +430,12 @@ def check(run: Run) -> None:
                         "still occupied until the source's next mutation, is not an element of the fold"):
         R.membership_scans(run, "C11.j", [(RED, "reconcile_leaf_state", None, "leaves = current keys of the dictionary")])
 
+    with run.obligation("C11.k", "K6", "combiner positions are reconstructed from the candidate bitmap with the bitmap's own word width (word_index * SlotBitmap::bits_per_word + bit)"):
+        R.bitmap_positions(run, "C11.k", RED)
+
 
 VARIANTS = [
+    {"id": "k-position-times-literal-8", "expect": "C11.k", "edits": [{"file": RED, "find": "word_index * SlotBitmap::bits_per_word + bit", "replace": "word_index * 8U + bit"}]},
     {"id": "f2-seed-C11-5-key-index-survives-reset", "expect": "C11.f2", "edits": [{"file": RED, "find": "            storage.dense_to_source_handle.clear();\n            storage.key_to_leaf.clear();", "replace": "            storage.dense_to_source_handle.clear();"}]},
     {"id": "f2-remove-keeps-handle", "expect": "C11.f2", "edits": [{"file": RED, "find": "            storage.dense_to_source_slot.pop_back();\n            storage.dense_to_source_handle.pop_back();", "replace": "            storage.dense_to_source_slot.pop_back();"}]},
     {"id": "j-leaf-scan-occupied", "expect": "C11.j", "edits": [{"file": RED, "find": "dict.slot_live(slot)", "replace": "dict.slot_occupied(slot)"}]},
